@@ -289,6 +289,75 @@ func main() {
 	return diffrun.Program{Name: name, Files: files, NativeFiles: native, NoHelpers: true}
 }
 
+// PureChainProgram: packages without any variable or init function of their own (only functions, types and
+// constants) between main and packages whose initialisation has effects; the latter are imported by nobody else.
+func PureChainProgram() diffrun.Program {
+	name := "c10_purechain"
+	mod := diffrun.ModName(name)
+	r := func(s string) string { return strings.ReplaceAll(s, "MOD", mod) }
+	files := map[string]string{
+		"trace/trace.go":   traceSrc,
+		"trace/int_js.go":  "//go:build js\n\npackage trace\n\ntype Int = int\n",
+		"trace/int_ref.go": "//go:build !js\n\npackage trace\n\ntype Int = int32\n",
+		"effa/effa.go":     r("package effa\n\nimport \"MOD/trace\"\n\nvar Prefix = func() string { trace.Reg(\"effa.Prefix\"); return \"a:\" }()\n\nfunc init() { trace.Reg(\"effa.init\") }\n"),
+		"effb/effb.go":     r("package effb\n\nimport \"MOD/trace\"\n\nvar Table = map[string]trace.Int{\"k\": trace.Reg(\"effb.Table\")}\n\nfunc init() { trace.Reg(\"effb.init\"); Table[\"i\"] = 1 }\n"),
+		"effc/effc.go":     r("package effc\n\nimport \"MOD/trace\"\n\nfunc init() { trace.Reg(\"effc.init-only\") }\n"),
+		"purea/purea.go":   r("package purea\n\nimport \"MOD/effa\"\n\nconst Version = 3\n\ntype Label string\n\nfunc Mk(s string) Label { return Label(effa.Prefix + s) }\n"),
+		"pureb/pureb.go":   r("package pureb\n\nimport \"MOD/purec\"\n\nfunc Size() int { return purec.Size() + 1 }\n"),
+		"purec/purec.go":   r("package purec\n\nimport (\n\t\"MOD/effb\"\n\t_ \"MOD/effc\"\n)\n\ntype T struct{}\n\nfunc Size() int { return len(effb.Table) }\n"),
+		"main.go": r(`package main
+
+import (
+	"MOD/purea"
+	"MOD/pureb"
+	"MOD/trace"
+)
+
+var first = func() string { trace.Reg("main.first"); return string(purea.Mk("x")) }()
+
+func init() { trace.Reg("main.init") }
+
+func events(prefix string) string {
+	out, cur := "", ""
+	for i := 0; i < len(trace.Order); i++ {
+		if trace.Order[i] != ';' {
+			cur += string(trace.Order[i])
+			continue
+		}
+		if len(cur) > len(prefix) && cur[:len(prefix)] == prefix {
+			out += cur + ";"
+		}
+		cur = ""
+	}
+	return out
+}
+
+func main() {
+	// the order between packages that do not depend on each other is not fixed: print each package's own events
+	for _, p := range []string{"effa.", "effb.", "effc.", "main."} {
+		println("C10/purechain/events/"+p, events(p))
+	}
+	// everything main depends on (also through packages that have nothing to initialise themselves) ran before main's first initialiser
+	mainAt, n, cur := -1, 0, ""
+	for i := 0; i < len(trace.Order); i++ {
+		if trace.Order[i] != ';' {
+			cur += string(trace.Order[i])
+			continue
+		}
+		if cur == "main.first" {
+			mainAt = n
+		}
+		n++
+		cur = ""
+	}
+	println("C10/purechain/deps-first", mainAt, n)
+	println("C10/purechain/values", first, pureb.Size(), purea.Version)
+}
+`),
+	}
+	return diffrun.Program{Name: name, Files: files, NoHelpers: true}
+}
+
 // ---- linknames in both directions ----
 
 // LinknameProgram: function / value method / pointer method targets, along and against the import direction.
